@@ -343,7 +343,9 @@ pub fn finish(ctx: &Ctx, out: Outcome, started: Instant) -> i32 {
         "coverage": coverage, "assumptions": out.assumptions, "wall_s": wall,
         "violations": new_violations.len(),
     });
-    if ctx.replay.is_none() {
+    // sanitizer / scaled-down auxiliary runs must not overwrite the evidence of the real run
+    let aux = std::env::var("TCV_NO_EVIDENCE").is_ok();
+    if ctx.replay.is_none() && !aux {
         let evdir = ctx.verif_dir.join("evidence");
         let _ = std::fs::create_dir_all(&evdir);
         let tmp = evdir.join(format!("{}.json.tmp", ctx.id));
@@ -370,6 +372,8 @@ pub fn finish(ctx: &Ctx, out: Outcome, started: Instant) -> i32 {
     }
     if !new_violations.is_empty() {
         1
+    } else if aux {
+        0
     } else if !out.acc.inconclusive.is_empty() {
         for i in &out.acc.inconclusive {
             println!("INCONCLUSIVE: {i}");
